@@ -50,6 +50,36 @@ structure Graph where
   node : Nat → Node
   deps : List Dep
 
+/-! ### from the configuration to the object: attributes that are not set -/
+
+/-- A `Dependency` as the configuration declares it; `none` = the attribute is not set. -/
+structure DepDecl where
+  child : Nat
+  parent : Nat
+  group : Option String
+  states : Option Nat                    -- `states = [ … ]` as filter bits
+  ignoreSoft : Option Bool
+  period : Option Nat
+  disableChecks : Option Bool
+  disableNotifications : Option Bool
+  deriving Repr, DecidableEq
+
+/-- `Dependency::OnConfigLoaded` (lib/icinga/dependency.cpp:207-217): without `states` the filter is
+    `StateFilterUp` for a host parent, `StateFilterOK | StateFilterWarning` for a service parent. -/
+def defaultFilter (parentIsService : Bool) : Nat := if parentIsService then 1 ||| 2 else 16
+
+/-- the object the configuration yields: `OnConfigLoaded` for the filter (an explicitly EMPTY list stays
+    empty: `some 0`), lib/icinga/dependency.ti:93-100 for the flags (`ignore_soft_states` defaults to true,
+    `disable_checks` to false, `disable_notifications` to true). -/
+def DepDecl.resolve (parentIsService : Bool) (x : DepDecl) : Dep :=
+  { child := x.child, parent := x.parent, group := x.group,
+    stateFilter := x.states.getD (defaultFilter parentIsService),
+    ignoreSoft := x.ignoreSoft.getD true,
+    periodClosed := false,
+    disableChecks := x.disableChecks.getD false,
+    disableNotifications := x.disableNotifications.getD true,
+    period := x.period }
+
 /-! ### Dependency::IsAvailable -/
 
 /-- `Host::CalculateState` (lib/icinga/host.cpp:141-150): OK/WARNING ⇒ Up. -/
@@ -268,6 +298,7 @@ inductive HObs
   | setPeriod (p : Nat) (closed : Bool)
   | query (obs : Aspect → Nat → Bool) (ndeps : Nat → Nat)                    -- IsReachable x 3 aspects, GetDependencies().size()
   | edges (par chi rev : Nat → List Nat)                                     -- GetParents / GetChildren / GetReverseDependencies
+  | hung                                                                     -- a query (IsReachable of every checkable) did not come back
 
 /-- what the recorded step means for the declared configuration (an accepted load adds its batch, a
     refused one nothing). -/
@@ -279,5 +310,6 @@ def Cfg.next (c : Cfg) : HObs → Cfg
   | .setPeriod p cl => { c with closed := fun q => if q == p then cl else c.closed q }
   | .query _ _ => c
   | .edges _ _ _ => c
+  | .hung => c
 
 end Icinga.C07
